@@ -417,3 +417,49 @@ Proof.
   destruct (Z.eq_dec X 0) as [->|Hn]; [reflexivity|].
   rewrite (Z.sgn_pos X) by lia. lia.
 Qed.
+
+Lemma exp_sem_range base e : inrange (fst (exp_sem base e)).
+Proof. unfold exp_sem. apply exp_iter_range. apply inrange_1. Qed.
+
+(* ---- bytes ------------------------------------------------------------------------------ *)
+Lemma be_to_Z_acc_bound l : forall acc, 0 <= acc ->
+  Forall (fun b => (b < 256)%N) l ->
+  acc * 256 ^ Z.of_nat (length l) <= be_to_Z_acc acc l < (acc + 1) * 256 ^ Z.of_nat (length l).
+Proof.
+  induction l as [|b r IH]; intros acc Ha Hf.
+  - cbn. lia.
+  - apply Forall_cons_iff in Hf as [Hb Hr]. cbn [be_to_Z_acc length].
+    rewrite Nat2Z.inj_succ, Z.pow_succ_r by lia.
+    specialize (IH (256 * acc + Z.of_N b) ltac:(lia) Hr).
+    assert (0 < 256 ^ Z.of_nat (length r)) by (apply Z.pow_pos_nonneg; lia).
+    assert (Z.of_N b < 256) by lia. nia.
+Qed.
+Lemma be_to_Z_range l : Forall (fun b => (b < 256)%N) l -> (length l <= 32)%nat -> inrange (be_to_Z l).
+Proof.
+  intros Hf Hl. unfold be_to_Z, inrange. pose proof (be_to_Z_acc_bound l 0 ltac:(lia) Hf) as Hb.
+  assert (256 ^ Z.of_nat (length l) <= 256 ^ 32) by (apply Z.pow_le_mono_r; lia).
+  rewrite tt256_eq. change (2 ^ 256) with (256 ^ 32). lia.
+Qed.
+Lemma be_bytes_ok n : forall z, Forall (fun b => (b < 256)%N) (be_bytes n z).
+Proof.
+  induction n as [|n IH]; intros z; cbn [be_bytes]; [constructor|].
+  apply Forall_app. split; [apply IH|]. constructor; [|constructor].
+  pose proof (Z.mod_pos_bound z 256 ltac:(lia)). lia.
+Qed.
+Lemma be_bytes_length n : forall z, length (be_bytes n z) = n.
+Proof. induction n as [|n IH]; intros z; cbn [be_bytes]; [reflexivity|]. rewrite app_length, IH. cbn. lia. Qed.
+
+(* byte(val & 0xff) of val.Int64() is the low byte of val *)
+Lemma low_byte_int64 v : 0 <= v -> wrap_u8 (Z.land (int64_of v) 255) = v mod 256.
+Proof.
+  intros Hv. unfold wrap_u8. change 255 with (Z.ones 8). rewrite Z.land_ones by lia.
+  change (2 ^ 8) with 256. rewrite Z.mod_mod by lia.
+  unfold int64_of. rewrite Z.abs_eq by lia. replace (v <? 0) with false by lia.
+  unfold wrap_i64. rewrite tt64_eq, tt63_eq.
+  pose proof (Z.div_mod v (2 ^ 64) ltac:(lia)) as E1.
+  pose proof (Z.div_mod (v mod 2 ^ 64 + 2 ^ 63) (2 ^ 64) ltac:(lia)) as E2.
+  set (q1 := v / 2 ^ 64) in *. set (q2 := (v mod 2 ^ 64 + 2 ^ 63) / 2 ^ 64) in *.
+  replace ((v mod 2 ^ 64 + 2 ^ 63) mod 2 ^ 64 - 2 ^ 63)
+    with (v + (- (q1 + q2) * 2 ^ 56) * 256) by (change (2 ^ 64) with (2 ^ 56 * 256) in *; lia).
+  apply Z.mod_add. lia.
+Qed.
